@@ -32,7 +32,7 @@ def battery(fqe, seed, tier, log=None):
 
     def put(name, arr):
         a = numpy.ascontiguousarray(numpy.asarray(arr))
-        if a.size <= 30000:
+        if a.size <= 40000:
             a = a.astype(numpy.complex128).ravel()
             out[name] = [[float(z.real), float(z.imag)] for z in a]
         else:
@@ -41,7 +41,7 @@ def battery(fqe, seed, tier, log=None):
         (1, 0, 0), (1, 1, 0), (1, 1, 1), (2, 0, 0), (2, 2, 2), (3, 3, 0), (3, 0, 3),       # empty / full / one orbital
         (4, 2, 2), (5, 1, 4), (6, 3, 3),
         (9, 0, 1), (10, 0, 1), (11, 0, 1), (10, 1, 1),                                    # STATES_PER_SET boundaries
-        (30, 0, 2), (15, 1, 3), (11, 1, 5), (31, 0, 2),                                   # lenb 435, 455, 462, 465
+        (30, 0, 2), (15, 1, 3), (11, 1, 5), (31, 0, 2), (12, 4, 1), (33, 2, 0), (40, 2, 1),                                 # lenb 435, 455, 462, 465
         (9, 4, 1),                                                                        # lena 126 > 100
         (31, 1, 1), (32, 1, 0), (33, 0, 1), (63, 1, 0), (64, 0, 1), (64, 1, 1),           # top orbital indices
     ]
@@ -119,6 +119,23 @@ def battery(fqe, seed, tier, log=None):
                 put(f"transform:{tag}", numpy.round(copy.deepcopy(w).transform(um)[3].get_coeff(key), 9))
             except Exception as exc:
                 out[f"transform:{tag}"] = "raise:" + type(exc).__name__
+        if norb >= 2 and dim <= 40000:
+            # orbital rotation (column kernels + de-excitation tables) on every shape, incl. rows longer than one
+            # batch and orbital counts above 31: a product of Givens rotations touching the first and last orbitals
+            mark("rotate " + tag)
+            q = numpy.eye(norb, dtype=numpy.complex128)
+            hi = norb - 1
+            for (a, b, th) in ((0, 1, 0.3), (0, hi, 0.5), (1 % norb, hi, -0.4), (max(hi - 1, 0), hi, 0.7)):
+                if a != b:
+                    g = numpy.eye(norb, dtype=numpy.complex128)
+                    g[a, a] = g[b, b] = numpy.cos(th)
+                    g[a, b] = numpy.sin(th) * 1j
+                    g[b, a] = numpy.sin(th) * 1j
+                    q = q @ g
+            try:
+                put(f"rotate:{tag}", numpy.round(copy.deepcopy(w).transform(q)[3].get_coeff(key), 9))
+            except Exception as exc:
+                out[f"rotate:{tag}"] = "raise:" + type(exc).__name__
     # spin-broken and number-broken containers (cross-sector maps, dn up to 2)
     for norb, n in ((2, 2), (3, 2), (3, 3), (4, 1)):
         mark(f"spinbroken {norb} {n}")
@@ -154,9 +171,11 @@ def run(ctx):
         last = open(logf).read().splitlines()[-1] if os.path.exists(logf) else "?"
         return (json.loads(line[0][5:]) if line else None), r.returncode, r.stderr, last
     ref, rc, err, last = child(ctx.src, {"OMP_NUM_THREADS": "4"})
+    regular_failed = None
     if ref is None:
-        ctx.disagree("bounds:battery-failed-regular-build", f"status {rc} at '{last}': {err[-600:]}", {"step": last})
-        return
+        # the regular build crashed: still run the sanitized build so that the report names the faulting access
+        regular_failed = (rc, last, err[-600:])
+        ref = {}
     try:
         asan_src = build_repo.build(variant="asan")
     except Exception as exc:
@@ -177,7 +196,13 @@ def run(ctx):
         kind = "asan" if any("AddressSanitizer" in l for l in reports) else "ubsan" if any("runtime error" in l for l in reports) \
             else "assert" if any("Assertion" in l for l in reports) else "exit"
         ctx.disagree(f"bounds:sanitizer-report:{kind}", f"sanitized run ended with status {rc} during '{last}': "
-                     + " | ".join(reports[:3])[:600], {"step": last, "reports": reports[:5], "stderr_tail": err[-1200:]})
+                     + " | ".join(reports[:3])[:600]
+                     + (f" (regular build: status {regular_failed[0]} at '{regular_failed[1]}')" if regular_failed else ""),
+                     {"step": last, "reports": reports[:5], "stderr_tail": err[-1200:]})
+        return
+    if regular_failed:
+        ctx.disagree("bounds:battery-failed-regular-build", f"status {regular_failed[0]} at '{regular_failed[1]}': {regular_failed[2]}",
+                     {"step": regular_failed[1]})
         return
     def same(x, y):
         if isinstance(x, list) and isinstance(y, list):
